@@ -264,6 +264,38 @@ func (s *Sorts) heapForMap(m *types.Map) string {
 	}
 	return name
 }
+// registerReachable declares the heaps of everything reachable from a value of type t (pointers, maps,
+// slices, through struct fields), so that contract terms at a function's entry can name them before the
+// body has touched them.
+func (s *Sorts) registerReachable(t types.Type, depth int, seen map[types.Type]bool) {
+	if depth > 5 || t == nil {
+		return
+	}
+	t = types.Unalias(t)
+	if seen[t] {
+		return
+	}
+	seen[t] = true
+	switch u := t.Underlying().(type) {
+	case *types.Pointer:
+		if _, isArr := u.Elem().Underlying().(*types.Array); !isArr {
+			s.heapForPointee(u.Elem())
+		}
+		s.registerReachable(u.Elem(), depth+1, seen)
+	case *types.Map:
+		s.heapForMap(u)
+		s.registerReachable(u.Key(), depth+1, seen)
+		s.registerReachable(u.Elem(), depth+1, seen)
+	case *types.Slice:
+		s.heapForSliceElem(u.Elem())
+		s.registerReachable(u.Elem(), depth+1, seen)
+	case *types.Struct:
+		for i := 0; i < u.NumFields(); i++ {
+			s.registerReachable(u.Field(i).Type(), depth+1, seen)
+		}
+	}
+}
+
 func (s *Sorts) declHeap(name, elem string) {
 	if _, ok := s.heaps[name]; !ok {
 		s.heaps[name] = &heapInfo{name: name, elem: elem}
